@@ -610,12 +610,13 @@ def render(deck, layout):
     return text
 
 
-def render_one_fortran(deck, rng):
+def render_one_fortran(deck, rng, where='surface_or_tr'):
     '''Canonical text with exactly ONE parameter of a surface card or of a TR
-    data card respelled in a form only Fortran reads (5.0+0, .5d1); None when
-    the deck has no such parameter.'''
+    data card (where='surface_or_tr'), or of an inline FILL / TRCL
+    transformation on a cell card (where='inline'), respelled in a form only
+    Fortran reads (5.0+0, .5d1); None when the deck has no such parameter.'''
     spots = []
-    for key in ('surfaces', 'data'):
+    for key in (('surfaces', 'data') if where == 'surface_or_tr' else ('cells',)):
         for ci, card in enumerate(deck[key]):
             if key == 'data' and not card[0][0].lstrip('*').lower().startswith('tr'):
                 continue
